@@ -86,6 +86,9 @@ func main() {
 			fmt.Println("load error:", e1, e2)
 			os.Exit(2)
 		}
+		for _, n := range canonNotes {
+			fmt.Println("canon:", n)
+		}
 		dumpFuncs(v1, *dump)
 		dumpFuncs(v2, *dump)
 		return
@@ -113,6 +116,9 @@ func main() {
 		}
 		r := NewReport(id, *tier)
 		r.Configs = []string{lc.Label()}
+		for _, n := range canonNotes {
+			r.Notes = append(r.Notes, "renamed field resolved: "+n)
+		}
 		if kerr != nil {
 			r.Fatalf("known findings file unreadable: %v", kerr)
 			known = &KnownFile{}
